@@ -159,8 +159,8 @@ def run(case):
     tof = lambda k: vals[k]  # noqa
     d = os.path.join(core.VERIF, ".work", "c01.%d" % os.getpid())
     os.makedirs(d, exist_ok=True)
-    fn = os.path.join(d, "rt.TextGrid")
-    fn2 = os.path.join(d, "rt2.TextGrid")
+    fn = core.fname(os.path.join(d, "rt.TextGrid"))
+    fn2 = core.fname(os.path.join(d, "rt2.TextGrid"))
 
     def f():
         tg = iogen.build_tg(case["g"], tof)
